@@ -229,7 +229,7 @@ Fixpoint render (c : ctx) (p : pz) (t : term) {struct t} : res (str * pz) :=
                  end in
         Ok (alias_sql c s alias, p1)
       end
-  | TJson j alias => Ok (alias_sql c (fquote (secondary_quote_char c) (json_sql j)) alias, p)
+  | TJson j alias => Ok (alias_sql c (fquote (secondary_quote_char c) (bsd (dial_eqb (dialect c) MYSQL) (json_sql j))) alias, p)
   | TValues f _ => do (s, p1) <- render c p f; Ok (L "VALUES(" ++ s ++ L ")", p1)
   | TLiteral raw alias => Ok (alias_sql c raw alias, p)
   | TPseudo raw _ => Ok (raw, p)
